@@ -92,6 +92,8 @@ class C11(Prop):
                            'noise': rng.irange(0, 40)} for h in hist]
         if scn['patterns'] and rng.chance(0.15):
             scn['pattern_objects'] = True     # patterns added as Pattern objects that carry time options of their own
+        if any(c_['kind'] == 'rule' for c_ in scn['controls']) and rng.chance(0.3):
+            scn['rule_alias'] = True     # rules registered under a key that differs from the name they carry
         return scn
 
     def shrink_candidates(self, scn):
